@@ -26,6 +26,7 @@ class Cache:
     # the following are only necessary for subquery detection
     limit: int
     group_by: set[UUID]
+    is_aggregated: bool  # a `summarize` (with or without grouping) is part of the current SELECT
     is_filtered: bool
 
     backend: type[TableImpl]
@@ -61,6 +62,7 @@ class Cache:
             + ",\n"
             + f"  limit={self.limit},\n"
             + f"  group_by={self.group_by},\n"
+            + f"  is_aggregated={self.is_aggregated},\n"
             + f"  is_filtered={self.is_filtered},\n)"
         )
 
@@ -86,6 +88,7 @@ class Cache:
             cols={col._uuid: col for col in node.cols.values()},
             limit=0,
             group_by=set(),
+            is_aggregated=False,
             is_filtered=False,
             backend=type(node),
         )
@@ -162,6 +165,7 @@ class Cache:
             res.name_to_uuid = {name: col._uuid for name, col in cols.items()}
             res.uuid_to_name = {uid: name for name, uid in res.name_to_uuid.items()}
             res.group_by = res.group_by | set(res.partition_by)
+            res.is_aggregated = True
             res.partition_by = []
 
         elif isinstance(node, verbs.SliceHead):
@@ -177,6 +181,7 @@ class Cache:
             res.derived_from = self.derived_from | right_cache.derived_from
             res.limit = 0
             res.group_by = set()
+            res.is_aggregated = False
             # the WHERE clause of the right table is moved to the joined query
             res.is_filtered = self.is_filtered or right_cache.is_filtered
 
@@ -194,6 +199,7 @@ class Cache:
             res.derived_from = self.derived_from | right_cache.derived_from
             res.limit = 0
             res.group_by = set()
+            res.is_aggregated = False
 
         elif isinstance(node, verbs.SubqueryMarker):
             res.cols = {
@@ -208,6 +214,7 @@ class Cache:
             }
             res.limit = 0
             res.group_by = set()
+            res.is_aggregated = False
             res.is_filtered = False
 
         assert len(res.name_to_uuid) == len(res.uuid_to_name)
@@ -263,7 +270,7 @@ class Cache:
             return "`filter` on a table containing a window function expression"
 
         if isinstance(node, verbs.Summarize):
-            if self.group_by and self.group_by != set(self.partition_by):
+            if self.is_aggregated:
                 return "nested summarize"
             if any(
                 (col.ftype(agg_is_window=False) in (Ftype.WINDOW, Ftype.AGGREGATE))
@@ -275,7 +282,7 @@ class Cache:
                 return "window function among grouping columns"
 
         if isinstance(node, verbs.Join):
-            if self.group_by:
+            if self.is_aggregated:
                 return "join with a grouped table"
 
             if (node.how == "full" or (node.child not in self.derived_from and node.how == "left")) and any(
@@ -298,7 +305,7 @@ class Cache:
                 return "full join with a filtered table"
 
         if isinstance(node, verbs.Union):
-            if self.group_by:
+            if self.is_aggregated:
                 return "union with a grouped table"
 
             if any(self.cols[uid].ftype() == Ftype.WINDOW for uid in self.uuid_to_name.keys()):
